@@ -442,6 +442,20 @@ def check_model(run, scen, model, D, pre_params, step, tag):
             run.count("o3_comparisons")
             if not (np.all(np.isfinite(a)) and np.all(np.isfinite(b))):
                 continue
+            if "cond" in dd:
+                # a chained function is k * d(x) + e with d the conditioner *of this model*: evaluated from
+                # its own coefficients and the model's own conditioner it must give what the object gives
+                # (a copy that still evaluates the conditioner of the object it was copied from was fitted
+                # against the wrong curve and does not)
+                k_, e_ = [float(v) for v in dep.parameters.values()]
+                with np.errstate(all="ignore"):
+                    own = k_ * np.asarray(dist.conditional_parameters[dd["cond"]](cvals), dtype=float) + e_
+                if np.all(np.isfinite(own)):
+                    dev_own = float(np.max(np.abs(a - own))) / max(sc, float(np.max(np.abs(own))), 1e-300)
+                    run.count("o3_chained_own_conditioner_checks")
+                    if dev_own > 1e-9:
+                        run.violate("O3-chained-function-uses-own-conditioner", f"{dd['shape']}" + ("/refit" if tag != "first" else ""), {"dim": i, "param": p, "max_rel_dev": dev_own, "coefficients": [k_, e_], "step": step, "tag": tag})
+                        return
             dev = float(np.max(np.abs(a - b))) / sc
             if dev > 1e-3:
                 run.violate("O3-dependence-fit-on-pairs", f"{dd['shape']}" + ("/refit" if tag != "first" else ""), {"dim": i, "param": p, "max_rel_dev": dev, "model": [float(v) for v in dep.parameters.values()], "standalone": [float(v) for v in ref.parameters.values()], "n_pairs": len(y), "step": step, "tag": tag})
@@ -636,8 +650,8 @@ def execute(prop, scen):
             seams.pin_global(core.h64(scen["seed"], si))
             with seams.OptimiserShim(fail_at=fail_at) as shim:
                 try:
-                    if st.get("clone_before") and si > 0:
-                        A = copy.deepcopy(A)  # the user continues with a deep copy of the fitted model
+                    if st.get("clone_before"):
+                        A = copy.deepcopy(A)  # the user continues with a deep copy of the (fitted or still unfitted) model
                         run.count("probe:continued-on-deep-copy")
                     A.fit(_as_container(D, st.get("container", "ndarray")), shared_fd_a if scen.get("reuse_fit_desc") else copy.deepcopy(fit_desc_of(scenA)))
                 except Exception as e:  # noqa: BLE001
